@@ -376,8 +376,20 @@ def backward_slice(body, outputs, stop_at=None, cut=()):
 
 
 class Kernel:
-    def __init__(self, types, funcs=None):
+    def __init__(self, types, funcs=None, identity_calls=()):
         self.X = Expr(types, funcs)
+        # site option `identity_calls`: names of helpers that only re-order / align labelled arrays.  Exactly the statement
+        # `x, a, b = helper(x, a, b)` (same plain names, same order, no keywords) is then the identity for the elementwise meaning
+        self.identity_calls = set(identity_calls)
+
+    def is_identity_call(self, s):
+        t, v = s.targets[0], s.value
+        if not (isinstance(t, ast.Tuple) and isinstance(v, ast.Call) and isinstance(v.func, ast.Name) and v.func.id in self.identity_calls):
+            return False
+        if v.keywords or len(v.args) != len(t.elts) or not all(isinstance(x, ast.Name) for x in list(t.elts) + list(v.args)):
+            return False
+        names = [x.id for x in t.elts]
+        return names == [x.id for x in v.args] and len(set(names)) == len(names) and all(self.X.ty.get(n) == "num" for n in names)
 
     def block(self, stmts, indent):
         """returns list of (lhs_text, rhs_text) lets; updates types"""
@@ -389,6 +401,8 @@ class Kernel:
             if isinstance(s, ast.Assign):
                 if len(s.targets) != 1:
                     raise Unsupported("multiple assignment targets")
+                if self.is_identity_call(s):
+                    continue
                 t = s.targets[0]
                 if isinstance(t, ast.Name):
                     v, ty = self.X.expr(s.value)
@@ -524,7 +538,7 @@ def translate_kernel(tree, site):
     """site: dict(func, params{name:type}, outputs[names] | 'return', name, optional funcs, stop_before)"""
     fn = find_function(tree, site["func"])
     body = preprocess_body(list(fn.body), site)
-    K = Kernel(site["params"], site.get("funcs"))
+    K = Kernel(site["params"], site.get("funcs"), site.get("identity_calls", ()))
     outputs = site["outputs"]
     ret_expr = None
     if outputs == "return":
